@@ -87,6 +87,7 @@ public:
     void bvisit(const Rational &x);
     void bvisit(const Complex &x);
     void bvisit(const Integer &x);
+    void bvisit(const Infty &x);
     void bvisit(const RealDouble &x);
 #ifdef HAVE_SYMENGINE_PIRANHA
     void bvisit(const URatPSeriesPiranha &x);
